@@ -127,4 +127,22 @@ CLAIMS = {
             "and by 1..16-thread runs of the real builder compared digest by digest with single-threaded runs and the model.",
             "Trusted: Lean kernel; hand model of QRBuilder; the audit regexp; rustc's aliasing guarantees for &self over plain data.",
             "Lean 4 induction over operation histories + source audit + threaded differential runs"),
+    "C19": ("fault_enumeration",
+            "Fault enumeration on the real to_file (SVG and PNG) with a Lean theorem as the oracle's guarantee: for EVERY byte "
+            "string, prior file content and schedule of write behaviours the modelled to_file returns Ok only if the file holds "
+            "exactly the bytes, reports creation failures and hard write errors as Err, leaves an existing file untouched when "
+            "creation fails and always leaves a prefix (C19_ok_means_complete, C19_create_failure, C19_fault_means_err, "
+            "C19_prefix, C19_short_then_fail). Real code: 11 fault classes at create time and a file-size limit at many write "
+            "offsets, in child processes; result and final file bytes compared with the in-memory rendering and the model.",
+            "std::fs, tiny-skia's save_png and the OS are modelled, not verified. Trusted: Lean kernel; the fault injector.",
+            "Lean 4 induction over write schedules (model) + injected I/O faults on the real code"),
+    "C13": ("other",
+            "Partial. Lean 4 proves, on the model of ImageBuilder, that for every setter history the SVG text handed to the "
+            "rasteriser is the SvgBuilder rendering under the same setters (C13_forwarding, induction) and that the pixmap side is "
+            "the SVG side / w / h / min w h, the largest square in the request (C13_side, C13_largest_square). The rasteriser and "
+            "the PNG codec are external: the pixel clauses are checked by correspondence on the real code only — square pixmap of "
+            "the model's side, every pixel of every cell for the square shape at integer scale, the centre pixel of every cell "
+            "for all six shapes at >= 4 px/module, quiet zone, transparent background, PNG decodes (png crate) to the same pixels.",
+            "resvg/usvg/tiny-skia/png are not modelled; machine-checked proof does not reach the pixel clauses of this property.",
+            "Lean 4 proof of forwarding and fit size + exploration of the real rasteriser against the matrix"),
 }
